@@ -243,6 +243,8 @@ def observe(iface, app):
 def run_job(job) -> report.JobResult:
     import sys
     sys.unraisablehook = lambda *a: None
+    if job.get("kind") == "overlap":
+        return job_overlap(job)
     res = report.JobResult.new(job["name"])
     twin = job.get("twin", False)
     iface, recipe, depth, kind, what = job["iface"], job["recipe"], job["depth"], job["kind"], job["what"]
@@ -393,9 +395,112 @@ def concrete_confirm(job, inputs) -> Optional[bool]:
         SSeq.NORMALIZE = nrm
 
 
+# ------------------------------------------------------------------ two requests in flight through ONE middleware instance (ASGI)
+def overlap_scenario(delays):
+    """inner app: cookies and a header that depend on the request path; identity handler that awaits an audit hook (delays[i] ticks) between
+    next_call and return.  Returns per request (bare observation, wrapped observation)."""
+    import asyncio
+    from engine.vloop import VLoop
+
+    async def inner(scope, receive, send):
+        tag = scope["path"].strip("/")
+        r = AR.PlainTextResponse(("body of " + tag).encode(), 200, {"x-who": tag})
+        r.set_cookie("sid", tag)
+        r.set_cookie("seen", tag + "-1", max_age=5)
+        await r(scope, receive, send)
+
+    async def handler(request, next_call):
+        response = await next_call(request)
+        d = delays[0] if request["path"] == "/a" else delays[1]
+        if not isinstance(d, int) or d > 0:
+            if d > 0:
+                await asyncio.sleep(d)
+        return response
+    wrapped = AM.middleware(handler)(inner)
+
+    async def one(app, path, start):
+        if not isinstance(start, int) or start > 0:
+            if start > 0:
+                await asyncio.sleep(start)
+        ev = []
+
+        async def send(m):
+            ev.append(("send", m))
+
+        async def receive():
+            await asyncio.get_running_loop().create_future()
+        await app({"type": "http", "method": "GET", "path": path, "root_path": "", "headers": [], "query_string": b""}, receive, send)
+        return gw.norm_asgi(ev)
+
+    async def main():
+        bare = [await one(inner, "/a", 0), await one(inner, "/b", 0)]
+        got = await asyncio.gather(one(wrapped, "/a", 0), one(wrapped, "/b", delays[2]))
+        return bare, list(got)
+    loop = VLoop()
+    try:
+        return loop.run_until_complete(main())
+    finally:
+        loop.close()
+
+
+def job_overlap(job) -> report.JobResult:
+    res = report.JobResult.new(job["name"])
+    twin = job.get("twin", False)
+    eng = Engine(budget_s=600)
+    D = [z3.Int("audit_a"), z3.Int("audit_b"), z3.Int("start_b")]
+    for v in D:
+        eng.solver.add(v >= 0, v <= 10)
+
+    def verdict(e, bare, got):
+        for i, path in enumerate(("/a", "/b")):
+            d = gw.diff_norm(e, bare[i], got[i])
+            if d:
+                raise Fail("not-transparent-under-overlap", f"request {path}: {d}")
+
+    def fn():
+        bare, got = overlap_scenario([SInt(v) for v in D])
+        verdict(cur(), bare, got)
+        if twin:
+            raise Fail("twin-assert-false")
+        return "ok"
+
+    def on_path(e, r):
+        kind, v = r
+        klass = detail = None
+        if kind == "exc":
+            klass, detail = (v.klass, v.detail) if isinstance(v, Fail) else (f"exception:{type(v).__name__}", repr(v))
+        e.last_sat = False
+        m = e.witness()
+        cd = [m.eval(x, True).as_long() for x in D]
+        wit = {"job": job["name"], "inputs": {"audit_ticks_a": cd[0], "audit_ticks_b": cd[1], "second_request_starts_at": cd[2]}}
+        cp = None
+        prev = Engine.cur
+        Engine.cur = None
+        try:
+            bare, got = overlap_scenario(cd)
+            verdict(C5._PlainEngine(), bare, got)
+        except Fail as f:
+            cp = f"{f.klass}: {f.detail}"
+        except Exception as ex:  # noqa: BLE001
+            cp = f"exception {type(ex).__name__}: {ex}"
+        finally:
+            Engine.cur = prev
+        if klass is not None:
+            res.violation(f"C20/asgi/overlap/{klass.split(':')[0]}", wit, f"{klass} {detail}; concrete schedule: {cp}", (cp is not None) or twin)
+            return
+        res.kind("ok")
+        if cp is not None:
+            res["harness_errors"].append(f"symbolic schedule holds but its concrete instance fails: {wit}: {cp}")
+        res["validated"] += 1
+        res.sample(wit, limit=1)
+    eng.explore(fn, on_path)
+    res.absorb_engine(eng)
+    return res
+
+
 def jobs(tier: str):
     b = META["bounds"][tier]
-    out = []
+    out = [dict(name="asgi/overlap/two-requests-one-middleware", iface="asgi", recipe="overlap", depth=1, kind="overlap", what="schedule", weight=40)]
     for iface in ("wsgi", "asgi"):
         for recipe in ("plain", "empty", "json", "redirect", "cookie1", "cookie2", "stream", "restart", "raises") + (("list1", "list2", "emptylist", "tuple1") if iface == "wsgi" else ()):
             for depth in range(1, b["depth_max"] + 1):
@@ -419,6 +524,12 @@ def jobs(tier: str):
 
 def replay(rec) -> int:
     w = rec["witness"]
+    if "overlap" in w.get("job", ""):
+        i = w["inputs"]
+        bare, got = overlap_scenario([i["audit_ticks_a"], i["audit_ticks_b"], i["second_request_starts_at"]])
+        diffs = [gw.diff_norm(C5._PlainEngine(), b_, g_) for b_, g_ in zip(bare, got)]
+        print(f"replay C20: {w} -> {diffs}")
+        return 1 if any(diffs) else 0
     job = [j for j in jobs("thorough") if j["name"] == w["job"]]
     conf = concrete_confirm(job[0], w["inputs"]) if job else None
     print(f"replay C20: {w} -> bare and wrapped {'differ' if conf else 'agree' if conf is False else 'n/a'}")
